@@ -825,7 +825,7 @@ package lisp
 //@   requires rtOK(env) && argsOK(args, 1)
 //@   ensures  [view-shares-the-tail-and-is-capacity-clamped] old(args.Cells[0].Type) == LSExpr && old(len(args.Cells[0].Cells)) >= 2 ==> result.Type == LSExpr && fresh(result) && cap(result.Cells) == len(result.Cells) && arr(result.Cells) == old(arr(args.Cells[0].Cells)) && off(result.Cells) == old(off(args.Cells[0].Cells)) + 1 && len(result.Cells) == old(len(args.Cells[0].Cells)) - 1 && result.sealed == old(args.Cells[0].sealed)
 //@   modifies nothing
-//@   property C11
+//@   property C11 C09
 
 //@ func builtinConcat
 //@   requires rtOK(env) && argsOK(args, 1)
@@ -868,7 +868,7 @@ package lisp
 //@   requires rtOK(env) && argsOK(args, 1)
 //@   ensures  [view-shares-the-tail-and-is-capacity-clamped] old(args.Cells[0].Type) == LSExpr && old(len(args.Cells[0].Cells)) >= 2 ==> result.Type == LSExpr && fresh(result) && cap(result.Cells) == len(result.Cells) && arr(result.Cells) == old(arr(args.Cells[0].Cells)) && off(result.Cells) == old(off(args.Cells[0].Cells)) + 1 && len(result.Cells) == old(len(args.Cells[0].Cells)) - 1 && result.sealed == old(args.Cells[0].sealed)
 //@   modifies nothing
-//@   property C11
+//@   property C11 C09
 
 //@ func builtinReverse
 //@   requires rtOK(env) && argsOK(args, 2)
@@ -890,7 +890,7 @@ package lisp
 //@   ensures  [vector-from-a-sealed-list-is-a-copy] old(args.Cells[0].Str) == "vector" && old(args.Cells[1].Type) == LSExpr && old(args.Cells[1].sealed) && result.Type == LArray && old(args.Cells[3].Int) > old(args.Cells[2].Int) ==> arr(result.Cells[1].Cells) != old(arr(args.Cells[1].Cells))
 //@   ensures  [vector-result-is-capacity-clamped] old(args.Cells[0].Str) == "vector" && result.Type == LArray ==> cap(result.Cells[1].Cells) == len(result.Cells[1].Cells)
 //@   modifies nothing
-//@   property C11
+//@   property C11 C09
 
 //@ func builtinVector
 //@   requires rtOK(env) && argsOK(args, 0)
@@ -1002,3 +1002,65 @@ package lisp
 //@   ensures  [a-list-for-text] old(v.Type) == LString || old(v.Type) == LBytes ==> result.Type == LSExpr && !result.sealed
 //@   modifies nothing
 //@   property C11
+
+// ---------------------------------------------------------------- C09: parsed programs are never written
+//
+// (1) In-place writers of LVal fields.  Every store to a field of an LVal that
+// the storing function (or a constructor it called) did not allocate itself is
+// one of the audited sites below (the repository marks the same sites with
+// //elps:mutates).  A new in-place writer fails the frame obligation.
+//@ immutable LVal.Cells property C09 except (*LEnv).evalSExpr, (*formalsCopier).copy, whole-struct-store-in:(*formalsCopier).copy, builtinAppendMutate, builtinReject, builtinSelect, builtinSortedMap, lisp/lisplib/libelpspath.storeCells, lisp/lisplib/libschema.markValidator, opFlet, opLabels, opLet, opLetSeq, opMacrolet, parser/rdparser.(*Parser).ParseConsExpression, parser/rdparser.(*Parser).ParseList
+//@ immutable LVal.Type property C09 except whole-struct-store-in:(*formalsCopier).copy
+//@ immutable LVal.Str property C09 except whole-struct-store-in:(*formalsCopier).copy, minifier.applyAssignments, minifier.rewriteExports, minifier.rewriteReferenceNode
+//@ immutable LVal.Native property C09 except whole-struct-store-in:(*formalsCopier).copy, (*LVal).SetCallStack
+//@ immutable LVal.Int property C09 except whole-struct-store-in:(*formalsCopier).copy, builtinAppendMutate, builtinReject, builtinSelect, decrementMarkTailRec, lisp/lisplib/libelpspath.storeCells
+//@ immutable LVal.Float property C09 except whole-struct-store-in:(*formalsCopier).copy
+//@ immutable LVal.FunType property C09 except whole-struct-store-in:(*formalsCopier).copy
+//@ immutable LVal.quoted property C09 except whole-struct-store-in:(*formalsCopier).copy
+//@ immutable LVal.spliced property C09 except whole-struct-store-in:(*formalsCopier).copy
+//@ immutable LVal.source property C09 except whole-struct-store-in:(*formalsCopier).copy, (*LEnv).ErrorAssociate, (*LVal).SetSource, stampGuarded
+//@ immutable LVal.meta property C09 except whole-struct-store-in:(*formalsCopier).copy, init#2$2
+//@ immutable LVal.macroExpansion property C09 except whole-struct-store-in:(*formalsCopier).copy, init#4$1, stampGuarded
+//@ immutable LVal.sealed property C09 except whole-struct-store-in:(*formalsCopier).copy, (*LVal).InheritSeal, (*LVal).sealAST
+//
+// (2) The audited writers that can be handed a shared (sealed) node leave it
+// alone: `keeps LVal.sealed` = every LVal that was sealed when the function was
+// entered has all its fields and all its cells unchanged when it returns.
+
+//@ func (*LVal).SetSource
+//@   requires v != nil
+//@   keeps LVal.sealed
+//@   property C09
+
+//@ func (*LVal).sealAST
+//@   ensures  [seals-only-what-the-parser-can-produce] v != nil && !old(v.sealed) && v.sealed ==> sealedKinds(v)
+//@   keeps LVal.sealed
+//@   property C09
+
+//@ func (*LVal).InheritSeal
+//@   ensures  [seals-only-what-the-parser-can-produce] v != nil && !old(v.sealed) && v.sealed ==> sealedKinds(v)
+//@   keeps LVal.sealed
+//@   property C09
+
+//@ func stampGuarded
+//@   loop 1 (rangeindex) invariant [idx] -1 <= rangeindex
+//@   keeps LVal.sealed
+//@   property C09
+
+// An error value is never a parsed node (the parser seals only lists, quotes,
+// symbols, strings and numbers: sealAST), so the two setters that write error
+// values cannot touch a sealed one.  `sealedKinds` is the part of the
+// representation invariant they rely on.
+//@ pred sealedKinds(v) = v.sealed ==> (v.Type == LSExpr || v.Type == LQuote || v.Type == LSymbol || v.Type == LQSymbol || v.Type == LString || v.Type == LInt || v.Type == LFloat)
+
+//@ func (*LVal).SetCallStack
+//@   requires v != nil && sealedKinds(v)
+//@   keeps LVal.sealed
+//@   property C09
+
+// stable-sort permutes cells in place: a sealed list (a program literal, or a
+// view that shares a literal's cells) is sorted on a private copy.
+//@ func builtinSortStable
+//@   requires rtOK(env) && argsOK(args, 2) && sealedKinds(args.Cells[1])
+//@   assert-at sort.Stable [a-sealed-list-is-sorted-on-a-copy] old(args.Cells[1].sealed) ==> fresh(arr(arg0.(*lvalByFun).cells))
+//@   property C09 C11
